@@ -236,6 +236,15 @@ func c15Case(t *T) {
 				if ns.VarFirst && i == 0 && urlClasses[ns.Cls[i]].Re == "" && chance(r, 2, 3) {
 					val = fmt.Sprintf("n%d", 1+r.IntN(len(specs))) // the literal first segment of another route
 				}
+				if urlClasses[ns.Cls[i]].Re == "" && val != "" && chance(r, 1, 5) {
+					// a blank at the edge of the value (inside the path: only the ends of the whole path are trimmed)
+					if chance(r, 1, 2) {
+						val = " " + val
+					} else {
+						val += " "
+					}
+					t.Count("roundtrip.value_with_a_blank_at_its_edge", 1)
+				}
 				if i == len(ns.Vars)-1 && strings.HasSuffix(ns.Path, "}") {
 					// the value ends the path: normalisation would strip trailing blanks / slashes
 					for strings.HasSuffix(val, " ") || strings.HasSuffix(val, "/") || strings.HasPrefix(val, " ") && len(ns.Vars) == 0 {
